@@ -400,8 +400,25 @@ fn sweep(prof: &Profile, seed: u64, count: usize, ops: &mut dyn Write, real: &mu
         });
         // in-place rehashes first (rare, guarded), then the heaviest, then random ones
         let mut chosen: Vec<usize> = cand.iter().copied().filter(|&j| b.inplace[j]).take(2).collect();
+        // then one op of each guarded / bulk kind (rotating over scenarios, so that every kind is swept
+        // in some scenario of a batch whatever the generator's mix)
+        const KINDS: &[&str] = &[
+            "drain", "into_iter", "clear", "retain", "extract_if", "clone_from", "clone_to_other", "drain_fold",
+            "into_iter_fold", "shrink_to", "shrink_to_fit", "into_keys", "into_values", "extend", "from_iter",
+            "bitor_assign", "bitxor_assign", "bitand_assign", "sub_assign", "replace", "get_or_insert_with",
+        ];
+        let name_of = |j: usize| b.ops[j].split_whitespace().nth(1).unwrap_or("").to_string();
+        for r in 0..KINDS.len() {
+            if chosen.len() >= prof.sweep_ops / 2 + 1 {
+                break;
+            }
+            let kind = KINDS[(r + i * 3) % KINDS.len()];
+            if let Some(&j) = cand.iter().find(|&&j| name_of(j) == kind && !chosen.contains(&j)) {
+                chosen.push(j);
+            }
+        }
         for &j in cand.iter().take(prof.sweep_ops / 2) {
-            if !chosen.contains(&j) {
+            if chosen.len() < prof.sweep_ops && !chosen.contains(&j) {
                 chosen.push(j);
             }
         }
